@@ -201,10 +201,12 @@ class Cx:
         """ONLYIF: site is reached only after an edge establishing lit."""
         eng = mirlib.OnlyIf(self.facts if body.facts is self.facts else body.facts, body, subst)
         ok = eng.guarded(site, lit)
-        detail = None
         if not ok:
             p = eng.witness_path(site, [lit])
-            detail = {"witness_path_bbs": p, "literal": repr(lit)}
+            detail = {"witness_path_bbs": p, "literal": repr(lit), "rule": "ONLYIF: a CFG path reaches the site without crossing an edge on which the literal is known"}
+        else:
+            pe = sorted(eng.primary_edges(lit))
+            detail = {"literal": repr(lit), "deciding_tests_at_lines": sorted({body.blocks[e[0]]["term"].get("ln") for e in pe})[:6], "edges_cut": len(eng.establishing_edges(lit)), "rule": "ONLYIF: site unreachable once the establishing edges are cut"}
         return self.check(ok, what or "reached only if %r" % lit, site, detail, key="onlyif %r" % lit)
 
     def only_if_any(self, body, site, lits, what=None):
@@ -370,7 +372,7 @@ def run_property(prop, tier, facts_by_config, specimen_by_config, seed=0):
             configs = ("default", "persistence", "nodefault")
         for config in configs:
             if config not in facts_by_config:
-                if tier == "thorough" or config == "default":
+                if (tier == "thorough" or config == "default") and prop in o.props:
                     r = Result(o, config)
                     r.inconclusive = "facts for configuration %r unavailable" % config
                     results.append(r)
